@@ -66,7 +66,8 @@ SameNext == steps < MaxSteps /\
 SameSpec == BothUp({<<"a">>}) /\ [][SameNext]_vars
 \* all paths: every sequence of joins, re-subscriptions and leaves of the given length, observed by one probe publish
 \* at the end (what the store has become does not depend on earlier probes)
-SameMut == \/ \E c \in {c1, c2}, q \in 0..2 : Subscribe(c, 1, << <<<<"a">>, q>> >>)
+SameMut == \/ \E c \in {c1, c2} : Churn(c)
+           \/ \E c \in {c1, c2}, q \in 0..2 : Subscribe(c, 1, << <<<<"a">>, q>> >>)
            \/ \E c \in {c1, c2} : Unsubscribe(c, 2, << <<"a">> >>)
            \/ \E q \in {0, 2} : ApiSubscribe(L1, <<"a">>, q)
            \/ ApiUnsubscribe(L1, <<"a">>)
@@ -128,6 +129,15 @@ SubsNext == steps < MaxSteps /\
   \/ \E r \in UnsubReqs : Unsubscribe(c1, 3, r)
   \/ \E t \in SNames : Publish(c2, t, 1, FALSE, "x", 9, FALSE)
 SubsSpec == SubsInit /\ [][SubsNext]_vars
+\* all paths of subscribe / unsubscribe requests and ring churn on one connection, then one probe publish from another:
+\* what a request established stays as it is, whatever the connection sends afterwards
+SubsLastMut == \/ Churn(c1)
+               \/ \E q \in {0, 1} : Subscribe(c1, 1, << <<FV1, q>> >>)
+               \/ Subscribe(c1, 1, << <<FV2, 1>>, <<FV1, 0>> >>)
+               \/ Unsubscribe(c1, 3, <<FV1>>) \/ Unsubscribe(c1, 3, <<FV2, FV1>>)
+SubsLastNext == steps < MaxSteps /\
+  IF steps < MaxSteps - 1 THEN SubsLastMut ELSE \E t \in {<<"a">>, <<"a","b">>} : Publish(c2, t, 1, FALSE, "x", 9, FALSE)
+SubsLastSpec == SubsInit /\ [][SubsLastNext]_vars
 
 (* C08 retained messages: parent / child / sibling topics, replacement by shorter and longer
    payloads, clearing, QoS downgrade, unrelated big traffic                                *)
@@ -160,7 +170,7 @@ Retain1Spec == BothUp({<<"a">>}) /\ [][Retain1Next]_vars
 \* descendants and an unrelated topic (an implementation that keeps them in a tree prunes and re-creates nodes),
 \* observed by one probe subscription at the end
 RTNames == {<<"a">>, <<"a","b">>, <<"a","b","c">>, <<"d">>}
-RetTreeMut == \E t \in RTNames, pl \in {"x", ""} : Publish(c1, t, 0, TRUE, pl, 0, FALSE)
+RetTreeMut == Churn(c1) \/ \E t \in RTNames, pl \in {"x", ""} : Publish(c1, t, 0, TRUE, pl, 0, FALSE)
 RetTreeLastNext == steps < MaxSteps /\
   IF steps < MaxSteps - 1 THEN RetTreeMut
   ELSE \E f \in {<<"#">>, <<"a">>, <<"a","#">>, <<"a","+">>, <<"a","b","c">>} : Subscribe(c2, 1, << <<f, 1>> >>)
@@ -196,6 +206,7 @@ SessSpec == SessInit /\ [][SessNext]_vars
 \* does not distinguish (e.g. a filter subscribed twice), so one witness per transition is not enough
 SW == [on |-> TRUE, t |-> <<"b">>, pl |-> "w1", q |-> 0, r |-> FALSE]     \* whether a connection has a will changes nothing about its session
 Sess1Next == steps < MaxSteps /\
+  \/ Churn(c1)
   \/ \E cl \in BOOLEAN, w \in {NoWill, SW} : Connect(c1, k1, cl, w)
   \/ \E q \in {0, 1} : Subscribe(c1, 1, << <<<<"a">>, q>> >>)
   \/ Unsubscribe(c1, 2, << <<"a">> >>)
